@@ -326,7 +326,25 @@ Definition toy_pre (p : option bytes) (l : log) : option bytes :=
 Definition toy_H (b : bytes) : bytes := b.
 
 (* ---------- the script of the correspondence run (vh importx) ---------- *)
+(* a stream that is NOT an export: the exported logs with log ids shifted by dl and transaction ids by dt (references,
+   idempotency keys, dates, hashes unchanged), optionally appended to the export itself.  Used to present Import with
+   NEW_TRANSACTION logs that reuse a reference (C14 on the import path). *)
+Definition shift_tx (d : Z) (t : tx) : tx :=
+  {| t_id := t_id t + d; t_postings := t_postings t; t_meta := t_meta t; t_ts := t_ts t; t_ref := t_ref t; t_ins := t_ins t;
+     t_upd := t_upd t; t_rev := t_rev t; t_pcv := t_pcv t; t_pcev := t_pcev t |}.
+Definition shift_target (d : Z) (t : target) : target := match t with TTx id => TTx (id + d) | TAcc a => TAcc a end.
+Definition shift_payload (d : Z) (p : payload) : payload :=
+  match p with
+  | PNewTx t amd => PNewTx (shift_tx d t) amd
+  | PRevert orig r => PRevert (shift_tx d orig) (shift_tx d r)
+  | PSetMeta t md => PSetMeta (shift_target d t) md
+  | PDelMeta t k => PDelMeta (shift_target d t) k
+  end.
+Definition shift_log (dl dt : Z) (l : log) : log :=
+  {| l_id := l_id l + dl; l_payload := shift_payload dt (l_payload l); l_date := l_date l; l_ik := l_ik l; l_input := l_input l |}.
+
 Inductive action :=
+| AImportShift (with_orig : bool) (now dl dt : Z)
 | AImport (drop : nat) (take : option nat) (now : Z)
 | ASingle (ops : list (Z * op))
 | ABulk (now : Z) (ops : list op)
@@ -343,6 +361,9 @@ Definition slice {A} (drop : nat) (take : option nat) (l : list A) : list A :=
 
 Definition run_action (f : features) (stream : list (log * bytes)) (b : istate) (a : action) : istate * aresult :=
   match a with
+  | AImportShift with_orig now dl dt =>
+    let shifted := map (fun r => (shift_log dl dt (fst r), snd r)) stream in
+    let '(b', e) := imp_import toy_H toy_pre f now b ((if with_orig then stream else []) ++ shifted) in (b', RImport e b')
   | AImport drop take now =>
     let '(b', e) := imp_import toy_H toy_pre f now b (slice drop take stream) in (b', RImport e b')
   | ASingle ops =>
